@@ -503,6 +503,8 @@ def run_case(rep: Report, prop, qual, name, setup, post, *, contracts=None, loop
     if site_obligations:
         agg = {}
         for s in ctx.sites:
+            if callable(site_obligations) and not site_obligations(s.key):
+                continue            # (a case may report only the sites of its own loop invariants)
             agg.setdefault(s.key, []).append(s)
         for key, ss in agg.items():
             ref = [s for s in ss if s.verdict.status == smt.REFUTED]
